@@ -236,7 +236,7 @@ u8_t *get_v_opt(int argc, char *argv[])
     srand((unsigned)time(NULL));
     fout.clear();
     int option_index = 0;
-    optind = 1;
+    optind = 0; // 0 makes glibc re-initialise its scanner: with 1 it keeps a pointer into the previous argv
     vpak_t *res = new vpak_t;
     res->mode = 'u';
     res->ctype = -1;
